@@ -117,7 +117,7 @@ int exec_special_op(World &w, const Op &op) {
             // included) must not influence what the next open mode delivers
             disk_copy(w.path, cp);
             std::vector<int> kinds;
-            for (int k = 0; k < OP_COUNT; k++) { if (!op_modifies(k)) continue; const char *nm = op_name(k); if (!strncmp(nm, "abuse_", 6) || k == OP_use_stale || k == OP_drop || k == OP_del_misdirected || k == OP_replace_member) continue; kinds.push_back(k); }
+            for (int k = 0; k < OP_COUNT; k++) { if (!op_modifies(k)) continue; const char *nm = op_name(k); if (!strncmp(nm, "abuse_", 6) || k == OP_use_stale || k == OP_drop || k == OP_del_misdirected || k == OP_replace_member || k == OP_mk_crowd) continue; kinds.push_back(k); }
             auto s_arr = w.arr; auto s_dims = w.dims; auto s_prop = w.prop; auto s_frame = w.frame;
             Violation v_saved = w.viol; bool own_saved = w.viol_own;
             std::string main_path = w.path; int saved_cur = w.cur;
@@ -217,7 +217,7 @@ int exec_special_op(World &w, const Op &op) {
             if (!op_modifies(k)) continue;
             const char *nm = op_name(k);
             // (the two composite operations re-base the observation in mid-operation; the calls they are made of are in the catalogue one by one)
-            if (!strncmp(nm, "abuse_", 6) || k == OP_use_stale || k == OP_drop || k == OP_del_misdirected || k == OP_replace_member) continue;
+            if (!strncmp(nm, "abuse_", 6) || k == OP_use_stale || k == OP_drop || k == OP_del_misdirected || k == OP_replace_member || k == OP_mk_crowd) continue;
             kinds.push_back(k);
         }
         int saved_cur = w.cur;
